@@ -369,11 +369,12 @@ type rnPre struct {
 	stakes    []*definition.StakeInfo
 	sentinels []*definition.SentinelInfo
 	pillars   []*definition.PillarInfo
+	liq       *rnLiqPre // s_rewards_epoch.go
 }
 
 func (r *rnRun) preSnapshot(ca types.Address, send *nom.AccountBlock) *rnPre {
 	ab := rnABI(ca)
-	if ab == nil || (ca != types.StakeContract && ca != types.SentinelContract && ca != types.PillarContract) {
+	if ab == nil || (ca != types.StakeContract && ca != types.SentinelContract && ca != types.PillarContract && ca != types.LiquidityContract) {
 		return nil
 	}
 	if m, e := ab.MethodById(send.Data); e != nil || m.Name != definition.UpdateMethodName {
@@ -382,7 +383,9 @@ func (r *rnRun) preSnapshot(ca types.Address, send *nom.AccountBlock) *rnPre {
 	pre := &rnPre{}
 	storage := r.n.Chain().GetFrontierAccountStore(ca).Storage()
 	if p := safely(func() {
-		if ca == types.PillarContract {
+		if ca == types.LiquidityContract {
+			pre.liq = r.liqSnapshot()
+		} else if ca == types.PillarContract {
 			pre.pillars, _ = definition.GetPillarsList(storage, false, definition.AnyPillarType)
 		} else if ca == types.StakeContract {
 			definition.IterateStakeEntries(storage, func(si *definition.StakeInfo) error {
@@ -811,8 +814,11 @@ func (r *rnRun) observeBlock(tx *nom.AccountBlockTransaction, methodErr error, s
 		r.credited++
 	}
 	if isUpdate && methodErr == nil && k > 0 {
-		if pre != nil && C != types.PillarContract {
+		if pre != nil && C != types.PillarContract && C != types.LiquidityContract {
 			r.amountsLine(C, pre, P.cursor+1, N)
+		}
+		if pre != nil {
+			r.epochLines(C, pre, P, N, ack, blk, variant)
 		}
 		if C == types.PillarContract {
 			for e := P.cursor + 1; e <= N.cursor; e++ {
